@@ -62,7 +62,7 @@ def classify(f):
     return "+".join(reasons)
 
 
-def run_shared(pid, tier, level="model_checking"):
+def run_shared(pid, tier, level="model_checking", n=None):
     chk = C.Check(pid, level, tier)
     chk.cov["rule"] = ("every draw of every recorded chain yields one line (adapt hook event joined with Progress and stats); "
                        "AdaptScheduleTrace must explain each; a line is non-trivial if it switched, changed the transformation, "
@@ -70,7 +70,8 @@ def run_shared(pid, tier, level="model_checking"):
     chk.assumptions = ASSUME
     C.build_harness()
     schedule_mc(chk, tier)
-    n = 180 if tier == "quick" else 1800
+    if n is None:
+        n = 180 if tier == "quick" else 1800
     scs = scenarios.schedule_scenarios(C.seed() * 7907 + 3, n)
     raw = record_runs(scs, pid.lower())
     runs, api = [], []
